@@ -13,4 +13,5 @@ INVARIANT CurIsSolution
 INVARIANT TotalIsSum
 INVARIANT MC_OrderIsEvalOrder
 PROPERTY ConfigFrozen
+VIEW MCView
 CHECK_DEADLOCK FALSE
